@@ -378,7 +378,114 @@ def run(ctx: core.Check, cases=None):
         if len(ctx.samples) < 5 and stream.startswith(("grid-aa", "random-ss", "kinds")):
             ctx.sample({"stream": stream, "op": op, "l": l, "r": r, "impl": _js(impl), "model": rep})
     same_object_stream(ctx)
+    nd_stream(ctx)
     recheck_kept(ctx)
+
+
+def _layout(a, how):
+    """the same values in a different memory layout"""
+    a = np.array(a, dtype=float)
+    if how == "F":
+        return np.asfortranarray(a)
+    if how == "T":                              # transposed view of a C array
+        return np.ascontiguousarray(a.T).T
+    if how == "strided":                        # every other entry of a wider buffer (last axis)
+        big = np.zeros(a.shape[:-1] + (2 * a.shape[-1],))
+        big[..., ::2] = a
+        return big[..., ::2]
+    if how == "neg":                            # reversed view of the reversed data
+        return np.ascontiguousarray(a[..., ::-1])[..., ::-1]
+    return np.ascontiguousarray(a)
+
+
+def nd_stream(ctx):
+    """operands of rank 2 and 3 in every memory layout (C, Fortran, transposed / strided / reversed views) and
+    tiny / huge magnitudes: the law is elementwise, the result has the operands' shape"""
+    I = _I()
+    rng = ctx.rng
+    G = grid_intervals()
+    lay = ["C", "F", "T", "strided", "neg"]
+    jobs = []
+    for _ in range(ctx.scale(260, 3000)):
+        shape = rng.choice([(2, 3), (3, 2), (3, 3), (2, 2), (1, 3), (3, 1), (2, 3, 4), (2, 1, 2), (4, 2)])
+        n = int(np.prod(shape))
+        xs = [rng.choice(G) for _ in range(n)]
+        ys = [rng.choice(G) for _ in range(n)]
+        form = rng.choice(["II", "II", "Is", "sI", "IV", "VI", "IN", "NI"])
+        op = rng.choice(list(OPS))
+        jobs.append((shape, xs, ys, form, op, rng.choice(lay), rng.choice(lay), 1))
+    # magnitudes at which products of endpoints under/overflow (a sign test by multiplication is wrong there)
+    for _ in range(ctx.scale(120, 1200)):
+        sc = rng.choice([1e-170, 1e-300, 3e-162, 1e150, 1e-200])
+        xs = [rng.choice(G)]
+        ys = [rng.choice([g for g in G if not (g[0] <= 0 <= g[1])])]
+        op = rng.choice(["div", "div", "add", "sub", "mul"])
+        jobs.append(((), xs, ys, rng.choice(["ss", "ss1"]), op, "C", "C", sc))
+    reqs = []
+    for (shape, xs, ys, form, op, l1, l2, sc) in jobs:
+        A = ("A", [F(x[0]) * F(sc) for x in xs], [F(x[1]) * F(sc) for x in xs])
+        if form in ("II",):
+            B = ("A", [y[0] for y in ys], [y[1] for y in ys])
+        elif form in ("Is", "sI", "ss", "ss1"):
+            B = ("I", ys[0][0], ys[0][1])
+        elif form in ("IV", "VI"):
+            B = ("V", [float(y[0]) for y in ys])
+        else:
+            B = ("N", ys[0][0])
+        if form in ("ss", "ss1"):
+            A = ("I", F(xs[0][0]) * F(sc), F(xs[0][1]) * F(sc))
+        l, r = (B, A) if form in ("sI", "VI", "NI") else (A, B)
+        reqs.append((l, r))
+    reps = core.model_batch("C01", [f"bin {j[4]} {wire(l)} {wire(r)}" for j, (l, r) in zip(jobs, reqs)])
+    for (shape, xs, ys, form, op, l1, l2, sc), (l, r), rep in zip(jobs, reqs, reps):
+        ctx.count(("nd", shape, tuple(xs), tuple(ys), form, op, l1, l2, sc), True, "nd-layout" if sc == 1 else "tiny-huge")
+        def real(d, layout):
+            if d[0] == "A":
+                lo = _layout(np.array([float(v) for v in d[1]]).reshape(shape), layout)
+                hi = _layout(np.array([float(v) for v in d[2]]).reshape(shape), layout)
+                return I(lo, hi)
+            if d[0] == "V":
+                return _layout(np.array(d[1], dtype=float).reshape(shape), layout)
+            if d[0] == "I":
+                if form == "ss1":
+                    return I(np.array([float(d[1])]), np.array([float(d[2])]))
+                return I(float(d[1]), float(d[2]))
+            return d[1]
+        try:
+            L, R = real(l, l1), real(r, l2)
+            res = OPS[op](L, R)
+            lo, hi = np.asarray(res.lo, dtype=float), np.asarray(res.hi, dtype=float)
+            want_shape = shape if form not in ("ss", "ss1") else (() if form == "ss" else (1,))
+            if lo.shape != tuple(want_shape) or hi.shape != tuple(want_shape):
+                impl = ("ok", "shape", [float(x) for x in lo.shape], [float(x) for x in want_shape])
+            else:
+                impl = ("ok", "A" if form != "ss" else "I", [float(x) for x in lo.ravel()], [float(x) for x in hi.ravel()])
+        except BaseException as e:  # noqa
+            impl = ("err", err_kind(e))
+        ctx.bump(("nd:" if sc == 1 else "tiny:") + (impl[1] if impl[0] == "err" else "value"))
+        model = parse_model(rep)
+        if model[0] == "ok" and form == "ss1":
+            model = ("ok", "A", model[2], model[3])
+        exact = sc == 1 and op != "div"
+        case = {"op": op, "l": _jd(l), "r": _jd(r), "shape": list(shape), "layout": [l1, l2], "form": form, "scale": sc}
+        if same(impl, model, exact, 2):
+            ctx.tie_ok()
+        else:
+            ctx.tie_bad("nd-layout" if sc == 1 else "tiny-huge", case, _js(impl), _js(model))
+        exp = expected(op, l, r)
+        if exp is not None and form == "ss1" and exp[0] == "ok":
+            exp = ("ok", "A", exp[2], exp[3])
+        if exp is not None and not same(impl, exp, exact, 2):
+            ctx.fail({"op": op, "lkind": l[0], "rkind": r[0], "symptom": "value" if impl[0] == "ok" else "raises:" + impl[1],
+                      "call": "Interval operator (rank-%d operands, layout %s/%s)" % (len(shape), l1, l2) if sc == 1
+                      else "Interval operator (magnitude %g)" % sc},
+                     dict(case, impl=_js(impl), expected=_js(exp)),
+                     f"{op} on operands of shape {shape} (layouts {l1},{l2}; form {form}; scale {sc}): implementation gives "
+                     f"{_js(impl)}, exact elementwise set image is {_js(exp)}")
+
+
+def _jd(d):
+    return [d[0]] + [([float(v) for v in x] if isinstance(x, list) else (float(x) if isinstance(x, F) else x)) for x in d[1:]]
 
 
 def same_object_stream(ctx):
